@@ -8,3 +8,22 @@ mod bucket_list_result;
 mod bucket_object;
 mod bucket_object_field;
 mod downloaded_bucket_object;
+
+/// Verification hook: when the `NEXRAD_VERIF_S3_ENDPOINT` environment variable is set (for example
+/// to `http://127.0.0.1:4000`), requests for `https://<bucket>.s3.amazonaws.com<rest>` are sent to
+/// `<endpoint>/<bucket><rest>` instead so that a local S3 simulator can serve them.
+#[cfg(feature = "verif-hooks")]
+pub(crate) fn verif_rewrite(path: String) -> String {
+    let endpoint = match std::env::var("NEXRAD_VERIF_S3_ENDPOINT") {
+        Ok(endpoint) if !endpoint.is_empty() => endpoint,
+        _ => return path,
+    };
+    if let Some(rest) = path.strip_prefix("https://") {
+        if let Some(split) = rest.find(".s3.amazonaws.com") {
+            let bucket = &rest[..split];
+            let remainder = &rest[split + ".s3.amazonaws.com".len()..];
+            return format!("{}/{}{}", endpoint.trim_end_matches('/'), bucket, remainder);
+        }
+    }
+    path
+}
